@@ -1,5 +1,5 @@
 import operator
-from weakref import WeakSet
+from weakref import WeakKeyDictionary
 
 from typing import Callable, Union, Any, Generic, TypeVar, Generator, Awaitable
 
@@ -124,11 +124,13 @@ class Tracked(Generic[V]):
 
     def __init__(self, value: V):
         self._value = value
-        self._listeners = WeakSet()  # type: WeakSet[AsyncComparison]
+        # insertion ordered, so that listeners are notified deterministically
+        self._listeners = WeakKeyDictionary()  \
+            # type: WeakKeyDictionary[AsyncComparison, None]
 
     def __add_listener__(self, listener: AsyncComparison):
         """Add a new listener for changes"""
-        self._listeners.add(listener)
+        self._listeners[listener] = None
 
     async def set(self, to: V):
         """Set the value"""
